@@ -600,3 +600,30 @@ pub fn c14_decimal_strings<S: Src>(s: &mut S) {
         }
     }
 }
+
+// ---------------------------------------------------------------- C11: variable-length naturals of a pointer address (strict parser)
+/// a pointer address whose three naturals are 1, 2 and then the given tail bytes: the strict parser accepts exactly when the tail is
+/// ONE terminated natural (last byte with a clear high bit, no byte after it), and then re-encodes to the same bytes
+pub fn c11_varnat<S: Src>(s: &mut S) {
+    let n = s.u8() as usize;
+    let tail: Vec<u8> = (0..n).map(|_| s.u8()).collect();
+    let mut bytes: Vec<u8> = vec![0x41];
+    bytes.extend([7u8; 28]);
+    bytes.extend([0x01, 0x02]);
+    bytes.extend(&tail);
+    let terminated_once = !tail.is_empty() && tail[tail.len() - 1] < 0x80 && tail[..tail.len() - 1].iter().all(|b| *b >= 0x80);
+    match Address::from_bytes(bytes.clone()) {
+        Ok(a) => {
+            assert!(terminated_once, "Address::from_bytes accepts a pointer address whose last natural {:02x?} is not one terminated number", tail);
+            if tail.len() <= 9 && (tail.len() == 1 || tail[0] != 0x80) { assert!(a.to_bytes() == bytes, "pointer address does not convert to bytes and back unchanged"); }
+        }
+        Err(_) => assert!(!terminated_once || tail.len() > 9, "Address::from_bytes refuses a well-formed pointer address with the natural {:02x?}", tail),
+    }
+    // embedded in an output: bytes that are not a valid address are kept verbatim
+    let mut out: Vec<u8> = vec![0x82, 0x58, bytes.len() as u8];
+    out.extend(&bytes);
+    out.push(0x00);
+    if let Ok(o) = TransactionOutput::from_bytes(out.clone()) {
+        if !terminated_once { assert!(o.to_bytes() == out, "an output whose address bytes are not a valid address is not written back unchanged"); }
+    }
+}
